@@ -222,6 +222,17 @@ def r11_2(ctx, m, L):
         arg = w.args[0] if w.args else None
         src = norm(arg) if arg is not None else ""
         from_get = any(isinstance(c, ast.Call) and isinstance(c.func, ast.Attribute) and c.func.attr == "get" and norm(c.func.value) in m.pqueues for c in ast.walk(arg)) if arg is not None else False
+        if not from_get and arg is not None:
+            # the item taken from the queue is held in a local first: item = pq.get(); out.write(item.seq)
+            root_ = arg
+            while isinstance(root_, (ast.Attribute, ast.Subscript)):
+                root_ = root_.value
+            if isinstance(root_, ast.Name):
+                defs_ = [a_ for st_ in after for a_ in ast.walk(st_) if isinstance(a_, ast.Assign) and len(a_.targets) == 1 and norm(a_.targets[0]) == root_.id]
+                lp_ = next((l_ for st_ in after for l_ in ast.walk(st_) if isinstance(l_, (ast.For, ast.While)) and any(x is w for x in ast.walk(l_))), None)
+                defs_in = [a_ for a_ in defs_ if lp_ is not None and any(x is a_ for x in lp_.body)]
+                if len(defs_in) == 1 and isinstance(defs_in[0].value, ast.Call) and isinstance(defs_in[0].value.func, ast.Attribute) and defs_in[0].value.func.attr == "get" and norm(defs_in[0].value.func.value) in m.pqueues and pf.before(defs_in[0], w):
+                    from_get = True
         raw_heap = ".queue" in src and not from_get
         is_write = isinstance(w.func, ast.Attribute) and w.func.attr == "write"
         ok = from_get and is_write and not raw_heap
@@ -543,6 +554,11 @@ def r11_5_batches(ctx, m):
                 t = norm(n.test)
                 if t in (f"len({bv}) > 0", f"len({bv}) != 0", f"{bv}", f"len({bv}) >= 1", f"len({bv})"):
                     rem_ok = True
+    if not rem_ok and after_loop:
+        # a guard on something else than the batch list itself (a counter kept next to it): not decided here
+        other_guard = [norm(n.test) for c in after_loop for n in walk_own(pf.node) if isinstance(n, ast.If) and any(x is c for x in ast.walk(n)) and not any(x is n for x in ast.walk(rl)) and bv not in {x.id for x in ast.walk(n.test) if isinstance(x, ast.Name)}]
+        if other_guard:
+            raise AnalysisError("R11.5", pf.where(), f"the leftover batch is handed over under `{other_guard[0][:50]}`, a test that does not look at the batch list `{bv}`: that it means 'the list is not empty' is not established")
     ctx.check(rem_ok, "R11.5", pf.where(), "the records left over after the last full batch are handed to a process (guarded only by non-emptiness)", key_of(pf, "remainder-batch"))
     # the leftover group (processes created but not yet run) is collected after the record loop
     loops_after = [L for L in m.loops if not any(x is L.node for x in ast.walk(rl))]
@@ -554,6 +570,23 @@ def r11_5_batches(ctx, m):
                 if any(t in (f"len({pl}) != 0", f"len({pl}) > 0", f"{pl}", f"len({pl})") for pl in m.proc_lists):
                     guard_ok = True
     ctx.check(guard_ok, "R11.5", pf.where(), "processes still pending after the record loop are run and collected (guarded only by a non-empty process list)", key_of(pf, "leftover-group"))
+    # nothing leaves the function between the record loop and the collection of the leftover group, unless the process list is
+    # known to be empty there: full batches parked in the list (fewer than `cores` of them) would never be run
+    from .c09 import guards_of as _gof11
+
+    for r_ in walk_stmts(pf.node.body):
+        if isinstance(r_, (ast.Return, ast.Raise)) or (isinstance(r_, ast.Expr) and isinstance(r_.value, ast.Call) and norm(r_.value.func) in ("sys.exit", "exit", "quit")):
+            if any(x is r_ for x in ast.walk(rl)) or not pf.before(rl, r_):
+                continue
+            if not any(pf.before(r_, L.node) for L in loops_after):
+                continue
+            if any(any(x is r_ for x in ast.walk(L.node)) for L in m.loops):
+                continue
+            gs_ = [(norm(t_), p_) for t_, p_ in _gof11(pf.node, r_)]
+            knows_empty = any(any(pl in g for pl in m.proc_lists) for g, _p in gs_)
+            is_abort = isinstance(r_, ast.Raise) or (isinstance(r_, ast.Expr) and r_.value.args and const_value(r_.value.args[0], 0) not in (0, None))
+            if not knows_empty and not is_abort:
+                ctx.violated("R11.5", pf.where(r_), f"the function leaves (`{norm(r_)[:30]}`, under `{' and '.join(g for g, _ in gs_)[:60]}`) after the record loop and before the leftover group is run, without looking at the process list: when the number of records is a multiple of the batch size, full batches still parked there (fewer than `cores` of them) are never realigned and never written", key_of(pf, "leaves-before-leftover-group"))
     # inside the record loop the group is run when the process count reaches the core count; afterwards the list is reset
     loops_in = [L for L in m.loops if any(x is L.node for x in ast.walk(rl))]
     for L in loops_in:
